@@ -125,6 +125,8 @@ Variable E D : bytes -> bytes -> bytes.
 Variable seal : bytes -> bytes -> bytes -> bytes -> bytes.
 Variable open : bytes -> bytes -> bytes -> bytes -> option bytes.
 Local Notation X := (std E D seal open).
+(* every theorem of this section is generalised over E D seal open (stated explicitly: which variables a proof term
+   happens to mention must not decide the type Props/C08.v sees) *)
 
 Ltac open_code :=
   repeat autounfold with go2v;
@@ -137,7 +139,9 @@ Ltac lia' := Z.div_mod_to_equations; lia.
 Ltac nonempty := first [assumption | discriminate | apply length_nonempty; rewrite ?gocopy_length; lia'].
 Ltac norm1 :=
   first
-  [ rewrite rem_nat by lia'
+  [ rewrite rem16_nat
+  | progress change (Z.to_nat 16) with 16%nat
+  | rewrite rem_nat by lia'
   | rewrite get_last by nonempty
   | rewrite last_opt_some by nonempty
   | rewrite slice_suffix_gen by (rewrite ?gocopy_length; lia')
@@ -145,7 +149,6 @@ Ltac norm1 :=
   | rewrite slice_prefix by (rewrite ?gocopy_length; lia')
   | rewrite concat_repeat1
   | rewrite land15_nat
-  | rewrite rem16_nat
   | rewrite masked_mod
   | rewrite to_nat_16_sub
   | rewrite to_nat_sub_nat
@@ -160,42 +163,44 @@ Ltac break_if :=
 Ltac break_opt :=
   match goal with |- context [match ?x with Some _ => _ | None => _ end] => destruct x eqn:? end.
 Ltac crush := repeat first [norm1 | break_if | break_opt].
+(* equal up to arithmetic inside the same constructors / list functions: arithmetic first, then one level down *)
+Ltac feq := first [ reflexivity | lia' | progress f_equal; feq ].
+Ltac finish := try reflexivity; try congruence; try (solve [feq]).
 
 Theorem code_PKCS7Padding : forall d bs, g_PKCS7Padding X d bs = bytes_res (pkcs7_pad d bs).
-Proof.
-  intros. unfold pkcs7_pad. open_code. crush; try reflexivity; repeat f_equal; lia'.
+Proof using E D seal open.
+  intros. unfold pkcs7_pad. open_code. crush; finish.
 Qed.
 
-Ltac finish := try reflexivity; try congruence; try (repeat f_equal; lia').
 
 Theorem code_PKCS7UnPadding : forall d bs, g_PKCS7UnPadding X d bs = bytes_res (pkcs7_unpad d bs).
-Proof.
+Proof using E D seal open.
   intros. unfold pkcs7_unpad. open_code.
   destruct d as [|x0 d0]; [reflexivity|]. set (d := x0 :: d0). assert (Hd : d <> []) by discriminate.
   crush; finish.
 Qed.
 Theorem code_PKCS5Padding : forall d, g_PKCS5Padding X d = bytes_res (pkcs5_pad d).
-Proof.
+Proof using E D seal open.
   intros. unfold pkcs5_pad. rewrite <- code_PKCS7Padding. open_code.
   repeat match goal with |- context [match ?m with Ret _ => _ | GoSem.Panic => _ | NoFuel => _ end] => destruct m as [[? ?]| |] end; reflexivity.
 Qed.
 Theorem code_PKCS5UnPadding : forall d, g_PKCS5UnPadding X d = bytes_res (pkcs5_unpad d).
-Proof.
+Proof using E D seal open.
   intros. unfold pkcs5_unpad. rewrite <- code_PKCS7UnPadding. open_code.
   repeat match goal with |- context [match ?m with Ret _ => _ | GoSem.Panic => _ | NoFuel => _ end] => destruct m as [[? ?]| |] end; reflexivity.
 Qed.
 
 Theorem code_AESCBCEncryptLen : forall p, g_AESCBCEncryptLen p = Ret (cbc_encrypt_len (length p)).
-Proof. intros. open_code. unfold cbc_encrypt_len. rewrite masked_Z. reflexivity. Qed.
+Proof using E D seal open. intros. unfold cbc_encrypt_len. open_code. crush; finish. Qed.
 Theorem code_AESCBCDecryptLen : forall p, g_AESCBCDecryptLen p = Ret (cbc_decrypt_len (length p)).
-Proof. reflexivity. Qed.
+Proof using E D seal open. intros. unfold cbc_decrypt_len. open_code. crush; finish. Qed.
 Theorem code_AESGCMEncryptLen : forall p, g_AESGCMEncryptLen p = Ret (gcm_encrypt_len (length p)).
-Proof. reflexivity. Qed.
+Proof using E D seal open. intros. unfold gcm_encrypt_len. open_code. crush; finish. Qed.
 Theorem code_AESGCMDecryptLen : forall p, g_AESGCMDecryptLen p = Ret (gcm_decrypt_len (length p)).
-Proof. reflexivity. Qed.
+Proof using E D seal open. intros. unfold gcm_decrypt_len. open_code. crush; finish. Qed.
 
 Theorem code_pkcs7UnPadding : forall d, g_pkcs7UnPadding X pad_table d = int_res (unpad_tbl d).
-Proof.
+Proof using E D seal open.
   intros. unfold unpad_tbl. open_code.
   destruct d as [|x0 d0]; [reflexivity|]. set (d := x0 :: d0). assert (Hd : d <> []) by discriminate.
   crush; finish.
@@ -206,27 +211,27 @@ Definition E_blocks : Prop := forall k b, good_key k = true -> length b = 16%nat
 
 Lemma enc_len : E_blocks -> forall k iv d, good_key k = true -> length iv = 16%nat -> (length d mod 16 = 0)%nat ->
   length (cbc_enc_bytes E k iv d) = length d.
-Proof.
+Proof using E D seal open.
   intros El k iv d Hk Hiv Hd. unfold cbc_enc_bytes.
   destruct (cbc_enc_forall E El k Hk (blocks d) iv Hiv (blocks_forall d Hd)) as [F L].
   rewrite concat_length16 by exact F. rewrite L.
   pose proof (concat_length16 (blocks d) (blocks_forall d Hd)) as C. rewrite blocks_concat in C. symmetry. exact C.
 Qed.
 Lemma gocopy_same dst src : length src = length dst -> gocopy dst src = src.
-Proof. exact (copy_into_same dst src). Qed.
+Proof using E D seal open. exact (copy_into_same dst src). Qed.
 
 (* AESCBCEncrypt up to CryptBlocks (no premise): the model's cbc_encrypt_prep, then the chain written over dst *)
 Theorem code_AESCBCEncrypt_prep : forall dst plain key iv,
   mmap view_dst (g_AESCBCEncrypt X pad_table dst plain key iv) =
   dst_res (match cbc_encrypt_prep dst plain key iv with
            | Ok d2 => Ok (copy_into d2 (cbc_enc_bytes E key iv d2)) | Err e => Err e | Aes.Panic => Aes.Panic end).
-Proof.
+Proof using E D seal open.
   intros. unfold cbc_encrypt_prep. open_code. crush; finish.
 Qed.
 
 Theorem code_AESCBCEncrypt : E_blocks -> forall dst plain key iv,
   mmap view_dst (g_AESCBCEncrypt X pad_table dst plain key iv) = dst_res (cbc_encrypt E dst plain key iv).
-Proof.
+Proof using E D seal open.
   intros El dst plain key iv. rewrite code_AESCBCEncrypt_prep. unfold cbc_encrypt.
   destruct (cbc_encrypt_prep dst plain key iv) as [d2|e|] eqn:Ep; try reflexivity.
   unfold cbc_encrypt_prep in Ep.
@@ -240,25 +245,25 @@ Qed.
 
 Theorem code_AESCBCDecrypt : forall dst ct key iv,
   mmap view_dst_n (g_AESCBCDecrypt X pad_table dst ct key iv) = dst_n_res (cbc_decrypt D dst ct key iv).
-Proof.
+Proof using E D seal open.
   intros. unfold cbc_decrypt, unpad_tbl. open_code. crush; finish.
 Qed.
 
 Theorem code_AESGCMEncrypt : forall dst plain key nonce ad,
   mmap view_dst (g_AESGCMEncrypt X dst plain key nonce ad) = dst_res (gcm_encrypt seal dst plain key nonce ad).
-Proof.
+Proof using E D seal open.
   intros. unfold gcm_encrypt. open_code. crush; finish.
 Qed.
 Theorem code_AESGCMDecrypt : forall dst ct key nonce ad,
   mmap view_dst (g_AESGCMDecrypt X dst ct key nonce ad) = dst_res (gcm_decrypt open dst ct key nonce ad).
-Proof.
+Proof using E D seal open.
   intros. unfold gcm_decrypt. open_code. crush; finish.
 Qed.
 
 (* init(): run on the zero value of the table with fuel f, for EVERY f: the 17 patterns need 18 loop tests *)
 Lemma while_more {S R} (c : S -> M bool) (b : S -> M (ctl S R)) (p : S -> M S) : forall k f s r,
   while f c b p s = Ret r -> while (f + k) c b p s = Ret r.
-Proof.
+Proof using E D seal open.
   induction f as [|f IH]; intros s r; [discriminate|].
   cbn [Nat.add]. rewrite !while_step. destruct (c s) as [x| |]; cbn [bind]; try discriminate.
   destruct x; [|trivial]. destruct (b s) as [y| |]; cbn [bind]; try discriminate.
@@ -266,7 +271,7 @@ Proof.
 Qed.
 Theorem code_init_fuel : forall fuel,
   g_init_prePadPatterns fuel X g0_prePadPatterns = if (18 <=? fuel)%nat then Ret pad_table else NoFuel.
-Proof.
+Proof using E D seal open.
   intros fuel. do 18 (destruct fuel as [|fuel]; [vm_compute; reflexivity|]).
   change (18 <=? S (S (S (S (S (S (S (S (S (S (S (S (S (S (S (S (S (S fuel))))))))))))))))))%nat with true. cbv iota.
   repeat autounfold with go2v. cbv beta zeta.
@@ -278,11 +283,11 @@ Proof.
   end.
 Qed.
 Corollary code_init : forall fuel, (18 <= fuel)%nat -> g_init_prePadPatterns fuel X g0_prePadPatterns = Ret pad_table.
-Proof. intros fuel H. rewrite code_init_fuel. destruct (Nat.leb_spec 18 fuel); [reflexivity|lia]. Qed.
+Proof using E D seal open. intros fuel H. rewrite code_init_fuel. destruct (Nat.leb_spec 18 fuel); [reflexivity|lia]. Qed.
 
 (* ---- the value operations of the case interpreter through the generated code *)
 Lemma enc_m_res r : (forall e, r = Err e -> e <> 0) -> enc_m (bytes_res r) = enc_res (fun x => x) r.
-Proof.
+Proof using E D seal open.
   intros H. destruct r as [a|e|]; try reflexivity. specialize (H e eq_refl).
   unfold bytes_res, m_res, enc_m, enc_res. destruct (Z.eqb_spec e 0); [contradiction|reflexivity].
 Qed.
@@ -291,12 +296,12 @@ Ltac model_ifs :=
   | |- context [if ?c then _ else _] => destruct c
   end; try discriminate; intros [= <-]; discriminate.
 Lemma pad_err d bs e : pkcs7_pad d bs = Err e -> e <> 0.
-Proof. unfold pkcs7_pad. model_ifs. Qed.
+Proof using E D seal open. unfold pkcs7_pad. model_ifs. Qed.
 Lemma unpad_err d bs e : pkcs7_unpad d bs = Err e -> e <> 0.
-Proof. unfold pkcs7_unpad. model_ifs. Qed.
+Proof using E D seal open. unfold pkcs7_unpad. model_ifs. Qed.
 
 Theorem run_op_code_is_run_op : forall o, run_op_code E D seal open o = run_op E D seal open o.
-Proof.
+Proof using E D seal open.
   destruct o; try reflexivity; cbn [run_op_code run_op].
   - rewrite code_AESCBCEncryptLen, code_AESCBCDecryptLen, code_AESGCMEncryptLen, code_AESGCMDecryptLen, repeat_length.
     repeat match goal with |- context [if ?c then _ else _] => destruct c end; reflexivity.
